@@ -4,6 +4,7 @@ package drivers
 // under test is the driver process's own (set per case; cases run one at a time per process).
 
 import (
+	"crypto/tls"
 	"bytes"
 	"encoding/json"
 	"errors"
@@ -28,6 +29,9 @@ type envCfg struct {
 	Group    bool `json:"group"`
 	Runner   bool `json:"runner"`
 	Skip     bool `json:"skip"`
+	// Relaunch: the same *ClientConfig has been used for an earlier launch; PresetTLS: the caller set a TLSConfig
+	Relaunch  bool `json:"relaunch"`
+	PresetTLS bool `json:"presettls"`
 }
 type envCase struct {
 	Name     string          `json:"name"`
@@ -96,6 +100,20 @@ func runEnvCase(c envCase, tmp string) map[string]interface{} {
 		for _, v := range c.Versions {
 			cfg.VersionedPlugins[v] = set
 		}
+	}
+	if c.Cfg.PresetTLS {
+		cfg.TLSConfig = &tls.Config{MinVersion: tls.VersionTLS12}
+	}
+	if c.Cfg.Relaunch {
+		// an earlier launch with the very same config struct (what a supervisor restarting a plugin does)
+		cfg.RunnerFunc = func(l hclog.Logger, cmd *exec.Cmd, tmpDir string) (runner.Runner, error) {
+			os.RemoveAll(tmpDir)
+			return nil, errors.New("first launch")
+		}
+		cl0 := plugin.NewClient(cfg)
+		cl0.Start()
+		cl0.Kill()
+		cfg.RunnerFunc = nil
 	}
 	var env []string
 	stdinIsHost := false
